@@ -27,6 +27,7 @@ Definition eff_ref (w : positive) (h h' : heap) : Prop :=
 
 Definition eff_unref (w : positive) (h h' : heap) : Prop :=
   nextw h' = nextw h /\
+  (forall a, findw h a = None -> findw h' a = None) /\
   forall c, findw h w = Some c ->
     (w_ref c = 1 -> fate [w] h h' /\ findw h' w = None) /\ (w_ref c <> 1 -> only_ref h h' w).
 
@@ -98,6 +99,7 @@ Proof.
     destruct (unref fixed f w h1) as [u h2| |]; [|contradiction|exact I].
     destruct Hu as [_ [_ Sh]]. destruct Hf as [F1 F2].
     split; [rewrite (sh_nextw h1 h2 Sh); exact Hnw1|].
+    split; [intros a Hd; rewrite <- Fw1 in Hd; exact (shrinks_dead h1 h2 a Sh Hd)|].
     intros c0 Hw0. rewrite <- Fw1 in Hw0. rewrite Hw in Hw0. inversion Hw0; subst c0. split.
     + intro Er. destruct (F1 Er) as [Ft Hd]. split; [|exact Hd].
       eapply fate_pre; [exact Ft|]. intros x Hx. rewrite Fw1. destruct (findw h x); auto.
@@ -147,4 +149,230 @@ Proof.
     rewrite (upd_run h1 w _ cw Hw). apply Hst. apply links_upd_stable. intro c. split; [repeat split|reflexivity].
   - (* ONop *)
     cbn. apply Hst. apply stable_refl.
+Qed.
+
+(* ---- ghost state and heap ----------------------------------------------------------------------------------------- *)
+Definition addr_of (i : nat) : positive := Pos.of_succ_nat i.
+
+Lemma idx_addr : forall i, idx (addr_of i) = i.
+Proof. intro i. unfold idx, addr_of. rewrite SuccNat2Pos.id_succ. reflexivity. Qed.
+Lemma addr_idx : forall a, addr_of (idx a) = a.
+Proof.
+  intro a. unfold idx, addr_of. destruct (Pos2Nat.is_succ a) as [n Hn]. rewrite Hn. cbn.
+  apply Pos2Nat.inj. rewrite SuccNat2Pos.id_succ. symmetry. exact Hn.
+Qed.
+Lemma addr_inj : forall i j, addr_of i = addr_of j -> i = j.
+Proof. intros i j H. apply (f_equal idx) in H. rewrite !idx_addr in H. exact H. Qed.
+Lemma addr_lt : forall i j, (addr_of i < addr_of j)%positive <-> (i < j)%nat.
+Proof. intros i j. unfold addr_of. rewrite Pos2Nat.inj_lt. rewrite !SuccNat2Pos.id_succ. lia. Qed.
+Lemma addr_root : addr_of 0 = root.
+Proof. reflexivity. Qed.
+Lemma addr_succ : forall i, Pos.succ (addr_of i) = addr_of (S i).
+Proof. intro i. unfold addr_of. cbn. reflexivity. Qed.
+
+Definition agree_cell (gw : gwin) (oc : option wcell) : Prop :=
+  match oc with
+  | None => g_cnt gw = 0 /\ g_par gw = None
+  | Some c => g_cnt gw = w_ref c /\ option_map addr_of (g_par gw) = w_parent c
+  end.
+
+Record agree (g : ghost) (h : heap) : Prop := mk_agree {
+  ag_len : nextw h = addr_of (length g);
+  ag_cells : forall i gw, nth_error g i = Some gw -> agree_cell gw (findw h (addr_of i))
+}.
+
+Lemma agree_init : agree g0 (heap0 fixed).
+Proof.
+  constructor; [reflexivity|]. intros i gw Hn. destruct i as [|i]; cbn in Hn.
+  - inversion Hn; subst gw. cbn. auto.
+  - destruct i; discriminate.
+Qed.
+
+Section Agree.
+Variables (g : ghost) (h : heap).
+Hypothesis HI : hinv [] h.
+Hypothesis AG : agree g h.
+
+Lemma agree_live_entry : forall a, findw h a <> None -> exists gw, nth_error g (idx a) = Some gw.
+Proof.
+  intros a Hl. pose proof (hi_nextw [] h HI a Hl) as Hlt. rewrite (ag_len g h AG) in Hlt.
+  rewrite <- (addr_idx a) in Hlt. apply addr_lt in Hlt.
+  destruct (nth_error g (idx a)) as [gw|] eqn:Hn; [eauto|]. apply nth_error_None in Hn. lia.
+Qed.
+
+Lemma agree_held_live : forall i, gheld g i = true -> findw h (addr_of i) <> None.
+Proof.
+  intros i Hh. unfold gheld, gget in Hh. destruct (nth_error g i) as [gw|] eqn:Hn; [|discriminate].
+  pose proof (ag_cells g h AG i gw Hn) as Hc. apply Z.ltb_lt in Hh.
+  destruct (findw h (addr_of i)); [congruence|]. destruct Hc as [Hc _]. lia.
+Qed.
+
+Lemma agree_live_held : forall a c, findw h a = Some c ->
+  exists gw, nth_error g (idx a) = Some gw /\ g_cnt gw = w_ref c /\ option_map addr_of (g_par gw) = w_parent c /\ 0 < g_cnt gw.
+Proof.
+  intros a c Hf. assert (Hl : findw h a <> None) by congruence.
+  destruct (agree_live_entry a Hl) as [gw Hn]. exists gw. split; auto.
+  pose proof (ag_cells g h AG (idx a) gw Hn) as Hc. rewrite addr_idx in Hc. rewrite Hf in Hc. destruct Hc as [H1 H2].
+  split; auto. split; auto. pose proof (hi_ref [] h HI a c Hf (fun x => x)). lia.
+Qed.
+
+Lemma agree_intree : forall fuel i, gintree_n fuel g i = true -> anc h (addr_of i) root.
+Proof.
+  induction fuel as [|f IH]; intros i H; cbn in H; [discriminate|].
+  unfold gget in H. destruct (nth_error g i) as [gw|] eqn:Hn; [|discriminate].
+  apply andb_prop in H. destruct H as [Hc Hr]. apply Z.ltb_lt in Hc.
+  pose proof (ag_cells g h AG i gw Hn) as Hcell.
+  destruct (findw h (addr_of i)) as [c|] eqn:Hf; [|destruct Hcell; lia].
+  destruct Hcell as [_ Hp]. destruct i as [|i'].
+  - rewrite addr_root. eapply anc_refl. rewrite <- addr_root. exact Hf.
+  - destruct (g_par gw) as [p|]; [|discriminate]. cbn in Hp.
+    eapply anc_step; [exact Hf|symmetry; exact Hp|]. apply IH. exact Hr.
+Qed.
+
+Lemma agree_usable : forall i, gusable g i = true -> anc h (addr_of i) root.
+Proof.
+  intros i H. unfold gusable in H. apply andb_prop in H. destruct H as [H _].
+  apply andb_prop in H. destruct H as [_ H]. unfold gintree in H. eapply agree_intree; eauto.
+Qed.
+
+Lemma agree_usable_live : forall i, gusable g i = true -> findw h (addr_of i) <> None.
+Proof. intros i H. eapply anc_live_l. apply agree_usable. exact H. Qed.
+
+(* the ghost's walk to the top of a tree ends where the heap's does *)
+Lemma agree_top : forall fuel i, (i < fuel)%nat -> findw h (addr_of i) <> None ->
+  exists ct, findw h (addr_of (gtop_n fuel g i)) = Some ct /\ w_parent ct = None /\ anc h (addr_of i) (addr_of (gtop_n fuel g i)).
+Proof.
+  induction fuel as [|f IH]; intros i Hlt Hl; [lia|]. cbn.
+  destruct (live_some h _ Hl) as [c Hf].
+  destruct (agree_live_held _ c Hf) as [gw [Hn [_ [Hp _]]]]. rewrite idx_addr in Hn.
+  unfold gget. rewrite Hn. destruct (g_par gw) as [p|] eqn:Hgp; cbn in Hp.
+  - assert (Hpl : (addr_of p < addr_of i)%positive) by (apply (hi_parent_lt [] h HI (addr_of i) c); auto).
+    apply addr_lt in Hpl.
+    assert (Hlp : findw h (addr_of p) <> None) by (apply (hi_parent [] h HI (addr_of i) c); auto).
+    destruct (IH p) as [ct [H1 [H2 H3]]]; [lia|exact Hlp|].
+    exists ct. split; auto. split; auto. eapply anc_step; eauto.
+  - exists c. split; auto. split; auto. eapply anc_refl; eauto.
+Qed.
+
+End Agree.
+
+(* ---- list facts for the ghost updates ---------------------------------------------------------------------------------- *)
+Lemma nth_gset : forall (l : ghost) i x j,
+  nth_error (gset l i x) j = if Nat.eqb j i then (match nth_error l i with Some _ => Some x | None => None end) else nth_error l j.
+Proof.
+  induction l as [|y l IH]; intros i x j; cbn.
+  - destruct (Nat.eqb j i); destruct j, i; reflexivity.
+  - destruct i as [|i]; destruct j as [|j]; cbn; auto.
+Qed.
+
+Lemma length_gset : forall (l : ghost) i x, length (gset l i x) = length l.
+Proof. induction l as [|y l IH]; intros i x; cbn; auto. destruct i; cbn; auto. Qed.
+
+Lemma length_gdestroy_pass : forall l i w d, length (gdestroy_pass l i w d) = length l.
+Proof.
+  induction l as [|x l IH]; intros i w d; cbn; auto.
+  destruct (Nat.eqb i w); cbn; [rewrite IH; reflexivity|].
+  destruct (g_par x); [|cbn; rewrite IH; reflexivity].
+  destruct (existsb (Nat.eqb n) d && (0 <? g_cnt x)); [|cbn; rewrite IH; reflexivity].
+  destruct (g_cnt x =? 1); cbn; rewrite IH; reflexivity.
+Qed.
+
+(* ---- the ghost's one-pass destruction computes the fate the heap's recursion produces ------------------------------------ *)
+Lemma gdestroy_pass_agree : forall g h h' w cw,
+  hinv [] h -> agree g h -> findw h w = Some cw ->
+  fate [w] h h' -> findw h' w = None -> (forall a, findw h a = None -> findw h' a = None) ->
+  forall suffix i doomed,
+    (forall k gw, nth_error suffix k = Some gw -> nth_error g (i + k) = Some gw) ->
+    (forall j, In j doomed <-> ((j < i)%nat /\ gone [w] h h' (addr_of j))) ->
+    forall k gw', nth_error (gdestroy_pass suffix i (idx w) doomed) k = Some gw' ->
+      agree_cell gw' (findw h' (addr_of (i + k))).
+Proof.
+  intros g h h' w cw HI AG Hw Hfate Hwd Hdead.
+  apply fate_rule in Hfate.
+  induction suffix as [|x t IH]; intros i doomed Htail Hdoom k gw' Hn; [destruct k; discriminate|].
+  assert (Hx : nth_error g i = Some x) by (rewrite <- (Nat.add_0_r i); apply Htail; reflexivity).
+  pose proof (ag_cells g h AG i x Hx) as Hcell.
+  assert (Htail' : forall k0 gw0, nth_error t k0 = Some gw0 -> nth_error g (S i + k0) = Some gw0).
+  { intros k0 gw0 Hk0. rewrite Nat.add_succ_l, <- Nat.add_succ_r. apply Htail. exact Hk0. }
+  assert (Hnotgone_live : forall c', findw h' (addr_of i) = Some c' -> addr_of i <> w -> ~ gone [w] h h' (addr_of i)).
+  { intros c' Hc' Hne [[E|[]]|[_ Hd]]; congruence. }
+  (* the invariant of the doomed list after this entry, in the two possible ways *)
+  assert (Hkeep : ~ gone [w] h h' (addr_of i) ->
+            forall j, In j doomed <-> ((j < S i)%nat /\ gone [w] h h' (addr_of j))).
+  { intros Hng j. rewrite (Hdoom j). split; intros [H1 H2]; (split; [|exact H2]).
+    - lia.
+    - destruct (Nat.eq_dec j i) as [E|E]; [subst j; contradiction|lia]. }
+  assert (Hadd : gone [w] h h' (addr_of i) ->
+            forall j, In j (i :: doomed) <-> ((j < S i)%nat /\ gone [w] h h' (addr_of j))).
+  { intros Hg j. cbn. rewrite (Hdoom j). split.
+    - intros [E|[H1 H2]]; [subst j; split; [lia|exact Hg]|split; [lia|exact H2]].
+    - intros [H1 H2]. destruct (Nat.eq_dec j i) as [E|E]; [left; auto|right; split; [lia|exact H2]]. }
+  cbn [gdestroy_pass] in Hn.
+  destruct (Nat.eqb i (idx w)) eqn:Eiw.
+  - (* the window that is destroyed *)
+    apply Nat.eqb_eq in Eiw. assert (Ea : addr_of i = w) by (rewrite Eiw; apply addr_idx).
+    destruct k as [|k]; cbn in Hn.
+    + inversion Hn; subst gw'. rewrite Nat.add_0_r, Ea, Hwd. cbn. auto.
+    + rewrite <- Nat.add_succ_comm. eapply IH; [exact Htail'| |exact Hn].
+      apply Hadd. left. left. symmetry. exact Ea.
+  - apply Nat.eqb_neq in Eiw. assert (Ea : addr_of i <> w) by (intro E; apply Eiw; rewrite <- E; symmetry; apply idx_addr).
+    assert (Hxw : ~ In (addr_of i) [w]) by (apply not_in_single; exact Ea).
+    destruct (g_par x) as [p|] eqn:Hgp.
+    + (* attached in the ghost: the heap cell exists and its parent is the same window *)
+      destruct (findw h (addr_of i)) as [c|] eqn:Hf; [|destruct Hcell as [_ Hcp]; congruence].
+      destruct Hcell as [Hcnt Hpar]. rewrite Hgp in Hpar. cbn in Hpar.
+      pose proof (hi_ref [] h HI _ c Hf (fun y => y)) as Href.
+      assert (Hplt : (p < i)%nat) by (apply addr_lt; exact (hi_parent_lt [] h HI (addr_of i) c (addr_of p) Hf (eq_sym Hpar))).
+      assert (Hpos : (0 <? g_cnt x) = true) by (apply Z.ltb_lt; lia).
+      pose proof (Hfate _ c Hf Hxw) as R. unfold rule in R.
+      rewrite Hpos in Hn. rewrite andb_true_r in Hn.
+      destruct (existsb (Nat.eqb p) doomed) eqn:Eex.
+      * (* the parent goes *)
+        assert (Hg : gone [w] h h' (addr_of p)).
+        { apply existsb_exists in Eex. destruct Eex as [j [Hj Ej]]. apply Nat.eqb_eq in Ej. subst j. apply Hdoom in Hj. tauto. }
+        destruct (g_cnt x =? 1) eqn:E1.
+        -- apply Z.eqb_eq in E1.
+           assert (Hd : findw h' (addr_of i) = None).
+           { destruct (findw h' (addr_of i)) as [c'|]; auto. destruct R as [R1 _].
+             destruct (R1 (addr_of p) (eq_sym Hpar) Hg) as [_ [_ Hne]]. lia. }
+           destruct k as [|k]; cbn in Hn.
+           ++ inversion Hn; subst gw'. rewrite Nat.add_0_r, Hd. cbn. auto.
+           ++ rewrite <- Nat.add_succ_comm. eapply IH; [exact Htail'| |exact Hn].
+              apply Hadd. right. split; congruence.
+        -- apply Z.eqb_neq in E1.
+           destruct (findw h' (addr_of i)) as [c'|] eqn:Hf'.
+           ++ destruct R as [R1 _]. destruct (R1 (addr_of p) (eq_sym Hpar) Hg) as [Hr' [Hp' _]].
+              destruct k as [|k]; cbn in Hn.
+              ** inversion Hn; subst gw'. rewrite Nat.add_0_r, Hf'. cbn. split; [lia|auto].
+              ** rewrite <- Nat.add_succ_comm. eapply IH; [exact Htail'| |exact Hn].
+                 apply Hkeep. eapply Hnotgone_live; eauto.
+           ++ destruct R as [p' [Hp' [_ Hr']]]. lia.
+      * (* the parent stays *)
+        assert (Hng : ~ gone [w] h h' (addr_of p)).
+        { intro Hg. assert (Hin : In p doomed) by (apply Hdoom; split; auto).
+          assert (Hex : existsb (Nat.eqb p) doomed = true) by (apply existsb_exists; exists p; split; [exact Hin|apply Nat.eqb_refl]).
+          congruence. }
+        destruct (findw h' (addr_of i)) as [c'|] eqn:Hf'.
+        -- destruct R as [_ R2]. destruct R2 as [Hr' Hp'].
+           { intros q Hq Hg. apply Hng. rewrite <- Hpar in Hq. inversion Hq; subst q. exact Hg. }
+           destruct k as [|k]; cbn in Hn.
+           ++ inversion Hn; subst gw'. rewrite Nat.add_0_r, Hf'. cbn. rewrite Hgp. cbn. split; congruence.
+           ++ rewrite <- Nat.add_succ_comm. eapply IH; [exact Htail'| |exact Hn].
+              apply Hkeep. eapply Hnotgone_live; eauto.
+        -- destruct R as [p' [Hp' [Hg' _]]]. rewrite <- Hpar in Hp'. inversion Hp'; subst p'. contradiction.
+    + (* detached in the ghost: untouched *)
+      assert (Hng : ~ gone [w] h h' (addr_of i) /\ agree_cell x (findw h' (addr_of i))).
+      { destruct (findw h (addr_of i)) as [c|] eqn:Hf.
+        - destruct Hcell as [Hcnt Hpar]. rewrite Hgp in Hpar. cbn in Hpar.
+          pose proof (Hfate _ c Hf Hxw) as R. unfold rule in R.
+          destruct (findw h' (addr_of i)) as [c'|] eqn:Hf'.
+          + destruct R as [_ R2]. destruct R2 as [Hr' Hp']; [intros q Hq; congruence|].
+            split; [eapply Hnotgone_live; eauto|]. cbn. rewrite Hgp. cbn. split; congruence.
+          + destruct R as [p' [Hp' _]]. congruence.
+        - rewrite (Hdead _ Hf). split; [|exact Hcell].
+          intros [[E|[]]|[Hl _]]; congruence. }
+      destruct Hng as [Hng Hcell'].
+      destruct k as [|k]; cbn in Hn.
+      * inversion Hn; subst gw'. rewrite Nat.add_0_r. exact Hcell'.
+      * rewrite <- Nat.add_succ_comm. eapply IH; [exact Htail'| |exact Hn]. apply Hkeep. exact Hng.
 Qed.
